@@ -315,7 +315,7 @@ def _replay_boo(what, case, clause, model, seed):
     tried = 0
     try:
         for trial in range(10):
-            weighted = ("weighted" in case and "unweighted" not in case) if what == "qlm_Qlm" else (trial % 2 == 0)
+            weighted = ("weighted" in case and "unweighted" not in case) if what in ("qlm_Qlm", "init") else (trial % 2 == 0)
             l = int(rng.choice([2, 4, 6, 3, 11])) if what != "w_W_cap" else int(rng.choice([2, 4]))
             if case.startswith("l="):
                 l = int(case.split("/")[0][2:])
@@ -354,6 +354,13 @@ def _check_method(B, obj, what, case, sy, q, Q, tmpdir, rng):
     import os
     import numpy as np
     l, T, N, Nmax = sy["l"], sy["T"], sy["N"], sy["Nmax"]
+    if what == "init":
+        # the constructor's fields are the definitions (it calls qlm_Qlm), its bookkeeping attributes those of frame 0
+        if not (_close(obj.smallqlm, q) and _close(obj.largeQlm, Q)):
+            return "boo_3d(...).smallqlm / largeQlm differ from eq. (1)-(3)"
+        if obj.nparticle != N or not _close(obj.boxlength, sy["L"]) or obj.l != l or obj.Nmax != Nmax:
+            return f"attributes nparticle/boxlength/l/Nmax = {obj.nparticle}, {obj.boxlength}, {obj.l}, {obj.Nmax}"
+        return None
     if what == "qlm_Qlm":
         got_q, got_Q = obj.qlm_Qlm()
         if np.shape(got_q) != (T, N, 2 * l + 1) or np.shape(got_Q) != (T, N, 2 * l + 1):
@@ -1337,6 +1344,64 @@ class TimeCorr(Unit):
         return _replay_boo("time_corr", case, clause, model, seed)
 
 
+class Init(Unit):
+    """boo_3d.__init__: stores the constructor arguments, takes nparticle / boxlength from frame 0 (the two asserts pass on a trajectory
+    with one particle number and one box: the object invariant the other units assume) and sets smallqlm, largeQlm = self.qlm_Qlm() — the
+    fields every other method works on are the ones qlm_Qlm (its contract above) computes from the same trajectory, files, l, ppp, Nmax"""
+    module = MOD
+    qualname = f"{CLS}.__init__"
+    prop = "C09"
+    timeout = 6
+
+    def cases(self):
+        return ["weights", "noweights"]
+
+    def setup(self, ctx, case):
+        tr = Traj(ctx, 3, same_cell=True)
+        l, Nmax = ctx.int("l"), ctx.int("Nmax")
+        ppp = A.from_nested([ctx.int(f"ppp_{k}") for k in range(3)], "int")
+        snaps = tr.snapshots()
+        o = ctx.obj(MOD, CLS, {})
+        wf = WEIGHTSFILE if case == "weights" else None
+        M = A.simp(sv.add(sv.mul(2, l), 1))
+        small = A.new_arr((tr.T, tr.N, M), lambda idx: sv.Cx(sv.real("q_re"), sv.real("q_im")), "complex")
+        large = A.new_arr((tr.T, tr.N, M), lambda idx: sv.Cx(sv.real("Q_re"), sv.real("Q_im")), "complex")
+        seen = []
+
+        def qlm(interp, args, kwargs):
+            me = args[0]
+            seen.append(dict(me.content))
+            return (small, large)
+        ctx.interp.summaries[f"{MOD}.{CLS}.qlm_Qlm"] = qlm
+        inp = dict(tr=tr, l=l, Nmax=Nmax, ppp=ppp, snaps=snaps, wf=wf, small=small, large=large, seen=seen, o=o)
+        return [o, snaps, l, NEIGHBORFILE, wf, ppp, Nmax], {}, inp
+
+    def clause_names(self, case):
+        return ["attributes=arguments-when-qlm_Qlm-runs", "smallqlm,largeQlm=qlm_Qlm()", "nparticle,boxlength=those-of-frame-0"]
+
+    def ensures(self, ctx, case, inp, out):
+        seen = inp["seen"]
+        ok = len(seen) == 1
+        if ok:
+            at = seen[0]
+            ok = (getattr(at.get("snapshots"), "sid", None) == inp["snaps"].sid and at.get("l") is inp["l"] and at.get("neighborfile") == NEIGHBORFILE
+                  and at.get("weightsfile") == inp["wf"] and getattr(at.get("ppp"), "sid", None) == inp["ppp"].sid and at.get("Nmax") is inp["Nmax"])
+        yield "attributes=arguments-when-qlm_Qlm-runs", bool(ok)
+        fin = inp["o"].content
+        yield "smallqlm,largeQlm=qlm_Qlm()", bool(isinstance(fin.get("smallqlm"), A.Arr) and fin["smallqlm"].sid == inp["small"].sid
+                                                    and isinstance(fin.get("largeQlm"), A.Arr) and fin["largeQlm"].sid == inp["large"].sid)
+        bl = fin.get("boxlength")
+        c = ctx.int("c_axis")
+        okb = isinstance(bl, A.Arr) and bl.ndim == 1 and A.dim_eq_syntactic(bl.shape[0], 3) and A.dim_eq_syntactic(fin.get("nparticle"), inp["tr"].N)
+        yield "nparticle,boxlength=those-of-frame-0", (sv.implies(sv.and_(sv.cmp(">=", c, 0), sv.cmp("<", c, 3)), sv.cmp("==", bl.get((c,)), inp["tr"].bl(0, c))) if okb else False)
+
+    def raises(self, ctx, case, inp, out):
+        return None
+
+    def replay(self, case, clause, model, seed):
+        return _replay_boo("init", "weighted" if case == "weights" else "unweighted", clause, model, seed)
+
+
 # ---- lemmas on the spec (fresh variables) -------------------------------------------------------------------------
 
 def lemmas():
@@ -1420,7 +1485,7 @@ def extra_checks(tier, seed, repo):
     return {"obligations": obs}
 
 
-UNITS = [QlQl(), QlmQlm(), Sij(), WCap(), SpatialCorr(), TimeCorr()]
+UNITS = [QlQl(), QlmQlm(), Sij(), WCap(), SpatialCorr(), TimeCorr(), Init()]
 # callee contracts of other properties used at call sites: their units are re-verified with this check
 from contracts.common import callee_units as _callee_units   # noqa: E402
 UNITS = UNITS + _callee_units([('C02', None), ('C05', {'read_neighbors'}), ('C08', None), ('C13', {'conditional_gr'}), ('C14', None)], UNITS)
